@@ -240,12 +240,22 @@ impl Prop for C09 {
      Non-trivial = the text is rejected or parsed with error placeholders; distinct key = (sequence of the first six error messages, number of errors), i.e. which recovery paths ran in which order."
   }
   fn assumptions() -> Vec<String> { vec![
-    "termination is decided only up to the 20 s per-case budget; overruns are counted as timeouts (exit 2 above 1 %), never as violations".into(),
+    "termination is decided only up to the 20 s per-case budget; an overrun is a violation only for texts of at most 300 characters with bracket nesting <= 4 (which parse in < 0.4 s), otherwise it is counted as a timeout (exit 2 above 1 %)".into(),
     "bracket nesting in generated strings is capped at 4 because parse time grows exponentially with nesting depth (observation recorded in DESIGN.md)".into(),
     "`accounts for the entire input` is taken as parse()'s own contract (Ok only if nothing remains); it is not re-derived from the tree, which drops punctuation tokens".into(),
   ] }
   fn describe(c: &Case) -> String { format!("{:?}", case_text(c).unwrap_or_default().chars().take(400).collect::<String>()) }
   fn crash_sig(_c: &Case, what: &str) -> String { format!("C09|crash|{}", what) }
+  /// a text of at most 300 characters with bracket nesting <= 4 parses in well under half a second (measured: the slowest of 6000 generated
+  /// cases of that size took < 0.4 s on a loaded machine), so 20 s without an answer is non-termination, not slowness
+  fn hang_sig(c: &Case) -> Option<String> {
+    let text = case_text(c)?;
+    if text.chars().count() > 300 { return None; }
+    let (mut depth, mut max) = (0i32, 0i32);
+    for ch in text.chars() { match ch { '(' | '[' | '{' | '<' | '⟨' => { depth += 1; max = max.max(depth); } ')' | ']' | '}' | '>' | '⟩' => { if depth > 0 { depth -= 1; } } _ => {} } }
+    if max > 4 { return None; }
+    Some("C09|hang|small-input".to_string())
+  }
   fn check(c: &Case, _cx: &Cx) -> Verdict {
     let mut v = Verdict::new();
     let Some(text) = case_text(c) else { v.discard("corpus entry missing"); return v; };
